@@ -674,12 +674,31 @@ func (e *shEnv) font(sf *shFont, maxLen int, full bool) {
 // libharfbuzz 6.0.0): a complex-shaper script shaped against its native direction, with a default ignorable in the run
 func shMonotoneClass(c *shCase, rtl bool) string {
 	sc := parseScript(c.Script)
-	if rtl == c18nativeRTL(sc) || c.Dir >= 2 {
-		return ""
-	}
+	hasDI := false
 	for _, r := range c.Text {
 		if c18isDI(r) {
-			return ":non-native-direction-with-default-ignorable"
+			hasDI = true
+			break
+		}
+	}
+	if !hasDI {
+		return ""
+	}
+	nonNative := false
+	switch c.Dir {
+	case 0, 1:
+		nonNative = rtl != c18nativeRTL(sc)
+	case 3, 5: // HarfBuzz: the native vertical direction is top-to-bottom for every script; bottom-to-top reverses the buffer first
+		nonNative = true
+	}
+	if nonNative {
+		return ":non-native-direction-with-default-ignorable"
+	}
+	// native direction: only harfbuzz.Buffer.Shape with cluster level 1 and the default ignorable kept in the output
+	if c.API == 1 && c.Level == int(harfbuzz.MonotoneCharacters) && c.Flags&int(harfbuzz.PreserveDefaultIgnorables) != 0 {
+		switch cl := shaperClass(&shFont{}, sc); cl {
+		case "indic", "khmer", "myanmar", "use-or-default":
+			return ":native-direction:level1-preserved-default-ignorable:" + cl
 		}
 	}
 	return ""
